@@ -41,7 +41,7 @@ CHECKS = {
         technique="deterministic simulation (W-H handler world) with an adversary model: forged-handshake injection, justification oracle over the recorded history"),
     "C02": dict(
         cat="fault_enumeration", ref="DESIGN.md §5 C02",
-        text="Bounded fault enumeration plus seeded exploration on real handler sessions: for 6 base exchanges x datagram 0..9 every single-bit flip, every truncation length and a 1-byte insertion at every offset replaces the genuine datagram (198480 cases incl. auth-data growth with a patched size field: all in the thorough tier, a fixed-stride sample in the quick tier); exploration adds header/body splices, misdelivery, re-masking for another node, spoofed sources, duplicates. Every message handed to an application must be carried by an unmodified datagram of the attributed peer's real handler addressed to this receiver, presented from the attributed address and decrypting (sender's logged key) to exactly that message; a panic in the receive path is a violation.",
+        text="Bounded fault enumeration plus seeded exploration on real handler sessions: for 6 base exchanges x datagram 0..9 every single-bit flip, every truncation length and a 1-byte insertion at every offset replaces the genuine datagram (198540 cases incl. auth-data growth with a patched size field and presentation from the sender's IP on another port: all in the thorough tier, a fixed-stride sample in the quick tier); exploration adds header/body splices, misdelivery, re-masking for another node, spoofed sources, duplicates. Every message handed to an application must be carried by an unmodified datagram of the attributed peer's real handler addressed to this receiver, presented from the attributed address and decrypting (sender's logged key) to exactly that message; a panic in the receive path is a violation.",
         note="Trusted: wire tap origin tags, key log hook H6. Attribution address = address the carrier was presented from (a relay that rewrites the source of a whole handshake is indistinguishable from a NAT).",
         technique="deterministic simulation (W-H handler world): enumerated single-datagram corruption + seeded corruption faults, carrier oracle over the inbound history"),
     "C03": dict(
@@ -103,21 +103,21 @@ CHECKS = {
 
 FULL_STACK = " A further scenario runs 2-5 complete Discv5 nodes (public API, service, handler, sessions, tables, query pool, receive path; all honest) on the virtual network with drop / duplicate / delay / bit-flip / late-replay / partition / node-restart faults and tiny session caches or short session lifetimes as per-run knobs"
 EXTRA = {
-    "C01": " In a third of the runs a genuine peer lies about who it is after an honest handshake: it answers the handler's own record request (FINDNODE [0] to a contact dialled without a record) with a validly signed record of another identity.",
+    "C01": " Each challenge justifies one session only; genuine handshakes are sometimes damaged in their message part and re-presented repeatedly. In a third of the runs a genuine peer lies about who it is after an honest handshake: it answers the handler's own record request (FINDNODE [0] to a contact dialled without a record) with a validly signed record of another identity.",
     "C02": " Exploration also lets a party with keys of its own answer a WHOAREYOU in the challenged peer's name from the peer's address.",
-    "C03": " Exploration also holds genuine handshakes back until around or past the expiry of the challenge they answer while further undecryptable packets in the sender's name arrive.",
-    "C04": " Session-cache capacity (1-2) and session lifetime (0.3-5 s) are per-run knobs, so sessions are evicted or expire in mid-exchange.",
+    "C03": " Exploration also presents WHOAREYOU and handshake datagrams from the sender's IP on another UDP port and delivers damaged genuine handshakes repeatedly, and holds genuine handshakes back until around or past the expiry of the challenge they answer while further undecryptable packets in the sender's name arrive.",
+    "C04": " A fifth of the runs use an IPv6-only network; bit flips and late replays are part of the network profile. Session-cache capacity (1-2) and session lifetime (0.3-5 s) are per-run knobs, so sessions are evicted or expire in mid-exchange.",
     "C09": " The pool world also checks the query timeout itself (a poll that examined every query must not leave one in the pool that is past the timeout)." + FULL_STACK + ": every API future must return within a bound after the faults stop.",
     "C10": FULL_STACK + ": every find_node result is checked at the API (distinct, not the local node, increasing distance, at most 16, each id belongs to a node that put a NODES response to the caller on the wire).",
     "C11": FULL_STACK + ": the ban list must stay empty.",
-    "C12": " Record shapes include an IPv4 address without UDP port. The identity world includes a peer presenting another identity's record in answer to the handler's own record request.",
-    "C13": " Session-cache capacity and lifetime are per-run knobs; a banned-peer-bypass scenario checks that an exemption really lets a banned peer's answer through and nothing else." + FULL_STACK + ": all exemption maps must be empty once every API call returned and the address has been silent for a timeout.",
+    "C12": " On real handlers the adversary's own identity is known to the victim with a lower, equal or higher sequence number than the record its handshake attaches (a held record is replaced only by a strictly newer one). Record shapes include an IPv4 address without UDP port. The identity world includes a peer presenting another identity's record in answer to the handler's own record request.",
+    "C13": " A lower bound is checked as well (transmitted requests without outcome, from the request-transmission log). Session-cache capacity and lifetime are per-run knobs; a banned-peer-bypass scenario checks that an exemption really lets a banned peer's answer through and nothing else." + FULL_STACK + ": all exemption maps must be empty once every API call returned and the address has been silent for a timeout.",
     "C14": FULL_STACK + ": every NODES and PONG on the wire is decrypted with the key log and checked (requested distances only, never the requester's record, only table entries or the own record, PONG reports the requester's address and the current sequence number).",
     "C15": " A third scenario combines both: a full cache in which one session expires (its peer possibly crashed, the expired entry possibly looked up again) must drop that one, not a live one, when a new peer arrives.",
-    "C16": " An eighth of the IPv4 records carry an address without a UDP port, another eighth IPv4 and IPv6 endpoints together.",
-    "C17": " Dual-stack mode (per-family votes) is included.",
+    "C16": " Operations are aimed at the current pending candidate more often than chance. An eighth of the IPv4 records carry an address without a UDP port, another eighth IPv4 and IPv6 endpoints together.",
+    "C17": " Every SocketUpdated event must announce an address the record now advertises. Dual-stack mode (per-family votes) is included.",
     "C19": FULL_STACK + ": the same uniqueness oracle over all nodes' traffic.",
-    "C20": " The application may sit on requests for 50 ms to 10 min of simulated time." + FULL_STACK + ": TALKRESP packets on the wire never outnumber the TalkRequest events, carry a payload the application produced, and match the events in number at the end (unless the node restarted or its handler dropped a response for lack of a session).",
+    "C20": " Payloads may be explicitly empty. The application may sit on requests for 50 ms to 10 min of simulated time." + FULL_STACK + ": TALKRESP packets on the wire never outnumber the TalkRequest events, carry a payload the application produced, and match the events in number at the end (unless the node restarted or its handler dropped a response for lack of a session).",
 }
 
 NOT_APPLICABLE = {
